@@ -59,6 +59,10 @@ pub enum SVal {
     HumanReadableProbe,
     /// a Serialize impl that fails with a custom error
     Fail,
+    /// a map / struct impl that goes on after an entry failed to serialize (the failing entry is
+    /// left out, the others are written)
+    MapRecover(Vec<(SVal, SVal)>),
+    StructRecover(Vec<(&'static str, SVal)>),
 }
 
 impl Serialize for SVal {
@@ -158,6 +162,22 @@ impl Serialize for SVal {
                 s.serialize_bool(hr)
             }
             SVal::Fail => Err(serde::ser::Error::custom("injected failure")),
+            SVal::MapRecover(v) => {
+                let mut q = s.serialize_map(None)?;
+                for (k, x) in v {
+                    if q.serialize_entry(k, x).is_err() {
+                        continue;
+                    }
+                }
+                q.end()
+            }
+            SVal::StructRecover(v) => {
+                let mut q = s.serialize_struct("S", v.len())?;
+                for (k, x) in v {
+                    let _ = q.serialize_field(k, x);
+                }
+                q.end()
+            }
         }
     }
 }
@@ -166,60 +186,82 @@ impl Serialize for SVal {
 enum Img {
     Ok(RV),
     Err,
-    /// either an error or any image (string-like map keys)
+    /// either an error or any image
     Open,
+    /// either an error or exactly this image (keys that are not strings but have an obvious text
+    /// form: the statement allows refusing them, serde_json writes them as that text)
+    ErrOr(RV),
 }
 
-fn key_image(k: &SVal) -> Result<Option<String>, ()> {
-    // Ok(Some(s)) string key; Ok(None) unspecified (string-like); Err(()) unsupported key
+enum KeyImg {
+    /// a string key
+    Exact(String),
+    /// refused, or accepted as exactly this text
+    ErrOrExact(String),
+    Unsupported,
+}
+
+fn key_image(k: &SVal) -> KeyImg {
     match k {
-        SVal::Str(s) => Ok(Some(s.clone())),
-        SVal::Ip(a) => Ok(Some(a.to_string())),
-        SVal::Char(_) | SVal::UnitVariant(_) | SVal::CollectStr(_) => Ok(None),
-        SVal::NewtypeStruct(i) | SVal::Some(i) if matches!(**i, SVal::Str(_)) => Ok(None),
-        _ => Err(()),
+        SVal::Str(s) => KeyImg::Exact(s.clone()),
+        SVal::Ip(a) => KeyImg::Exact(a.to_string()),
+        SVal::Char(c) => KeyImg::ErrOrExact(c.to_string()),
+        SVal::UnitVariant(n) => KeyImg::ErrOrExact(n.to_string()),
+        SVal::CollectStr(s) => KeyImg::ErrOrExact(s.clone()),
+        SVal::NewtypeStruct(i) | SVal::Some(i) => match key_image(i) {
+            KeyImg::Exact(s) | KeyImg::ErrOrExact(s) => KeyImg::ErrOrExact(s),
+            KeyImg::Unsupported => KeyImg::Unsupported,
+        },
+        SVal::Bool(b) => KeyImg::ErrOrExact(b.to_string()),
+        SVal::I8(x) => KeyImg::ErrOrExact(x.to_string()),
+        SVal::I16(x) => KeyImg::ErrOrExact(x.to_string()),
+        SVal::I32(x) => KeyImg::ErrOrExact(x.to_string()),
+        SVal::I64(x) => KeyImg::ErrOrExact(x.to_string()),
+        SVal::I128(x) => KeyImg::ErrOrExact(x.to_string()),
+        SVal::U8(x) => KeyImg::ErrOrExact(x.to_string()),
+        SVal::U16(x) => KeyImg::ErrOrExact(x.to_string()),
+        SVal::U32(x) => KeyImg::ErrOrExact(x.to_string()),
+        SVal::U64(x) => KeyImg::ErrOrExact(x.to_string()),
+        SVal::U128(x) => KeyImg::ErrOrExact(x.to_string()),
+        _ => KeyImg::Unsupported,
+    }
+}
+
+/// combine the images of the parts of a container
+fn combine(parts: Vec<Img>, build: impl FnOnce(Vec<RV>) -> RV) -> Img {
+    let mut vals = Vec::new();
+    let (mut open, mut maybe) = (false, false);
+    for p in parts {
+        match p {
+            Img::Ok(r) => vals.push(r),
+            Img::ErrOr(r) => {
+                maybe = true;
+                vals.push(r);
+            }
+            Img::Err => return if open { Img::Open } else { Img::Err },
+            Img::Open => open = true,
+        }
+    }
+    if open {
+        Img::Open
+    } else if maybe {
+        Img::ErrOr(build(vals))
+    } else {
+        Img::Ok(build(vals))
     }
 }
 
 /// the image function written from the statement
 fn image(v: &SVal) -> Img {
-    let seq = |items: &[SVal]| -> Img {
-        let mut out = Vec::new();
-        let mut open = false;
-        for x in items {
-            match image(x) {
-                Img::Ok(r) => out.push(r),
-                Img::Err => return Img::Err,
-                Img::Open => open = true,
-            }
-        }
-        if open {
-            Img::Open
-        } else {
-            Img::Ok(RV::List(out))
-        }
-    };
+    let seq = |items: &[SVal]| -> Img { combine(items.iter().map(image).collect(), RV::List) };
     let fields = |items: &[(&'static str, SVal)]| -> Img {
-        let mut out = BTreeMap::new();
-        let mut open = false;
-        for (k, x) in items {
-            match image(x) {
-                Img::Ok(r) => {
-                    out.insert(k.to_string(), r);
-                }
-                Img::Err => return Img::Err,
-                Img::Open => open = true,
-            }
-        }
-        if open {
-            Img::Open
-        } else {
-            Img::Ok(RV::Map(out))
-        }
+        let keys: Vec<String> = items.iter().map(|(k, _)| k.to_string()).collect();
+        combine(items.iter().map(|(_, x)| image(x)).collect(), |vals| RV::Map(keys.into_iter().zip(vals).collect()))
     };
     let tagged = |name: &str, inner: Img| -> Img {
         match inner {
             Img::Ok(r) => Img::Ok(RV::Map([(name.to_string(), r)].into_iter().collect())),
+            Img::ErrOr(r) => Img::ErrOr(RV::Map([(name.to_string(), r)].into_iter().collect())),
             other => other,
         }
     };
@@ -254,31 +296,57 @@ fn image(v: &SVal) -> Img {
         SVal::HumanReadableProbe => Img::Ok(RV::Bool(true)),
         SVal::TupleVariant(n, v) => tagged(n, seq(v)),
         SVal::Map(entries) | SVal::CollectMap(entries) => {
-            let mut out = BTreeMap::new();
-            let mut open = false;
+            // the key is serialized before the value: the first failure wins
+            let mut parts = Vec::new();
+            let mut keys = Vec::new();
             for (k, x) in entries {
-                let ki = key_image(k);
-                // the key is serialized before the value: the first failure wins
-                match ki {
-                    Err(()) => return Img::Err,
-                    Ok(None) => open = true,
-                    Ok(Some(_)) => {}
-                }
-                match image(x) {
-                    Img::Err => return if open { Img::Open } else { Img::Err },
-                    Img::Open => open = true,
-                    Img::Ok(r) => {
-                        if let Ok(Some(ks)) = ki {
-                            out.insert(ks, r);
-                        }
+                match key_image(k) {
+                    KeyImg::Unsupported => {
+                        parts.push(Img::Err);
+                        break;
+                    }
+                    KeyImg::Exact(s) => {
+                        keys.push(s);
+                        parts.push(image(x));
+                    }
+                    KeyImg::ErrOrExact(s) => {
+                        keys.push(s);
+                        parts.push(match image(x) {
+                            Img::Ok(r) => Img::ErrOr(r),
+                            other => other,
+                        });
                     }
                 }
             }
-            if open {
-                Img::Open
-            } else {
-                Img::Ok(RV::Map(out))
+            combine(parts, |vals| RV::Map(keys.into_iter().zip(vals).collect()))
+        }
+        SVal::MapRecover(entries) => {
+            // entries that fail are left out; a key that is refused-or-text makes the entry optional,
+            // which this model does not enumerate: such maps are left open
+            let mut out = BTreeMap::new();
+            for (k, x) in entries {
+                match (key_image(k), image(x)) {
+                    (KeyImg::Exact(s), Img::Ok(r)) => {
+                        out.insert(s, r);
+                    }
+                    (KeyImg::Unsupported, _) | (KeyImg::Exact(_), Img::Err) => {}
+                    _ => return Img::Open,
+                }
             }
+            Img::Ok(RV::Map(out))
+        }
+        SVal::StructRecover(f) => {
+            let mut out = BTreeMap::new();
+            for (k, x) in f {
+                match image(x) {
+                    Img::Ok(r) => {
+                        out.insert(k.to_string(), r);
+                    }
+                    Img::Err => {}
+                    _ => return Img::Open,
+                }
+            }
+            Img::Ok(RV::Map(out))
         }
         SVal::Struct(f) => fields(f),
         SVal::StructSkip(f) => {
@@ -299,10 +367,10 @@ fn json_representable(v: &SVal) -> bool {
         SVal::F64(x) => x.is_finite(),
         SVal::Some(x) | SVal::NewtypeStruct(x) | SVal::NewtypeVariant(_, x) => json_representable(x),
         SVal::Seq(v) | SVal::Tuple(v) | SVal::TupleStruct(v) | SVal::TupleVariant(_, v) | SVal::CollectSeq(v) => v.iter().all(json_representable),
-        SVal::Map(e) | SVal::CollectMap(e) => e.iter().all(|(k, x)| matches!(k, SVal::Str(_) | SVal::Ip(_)) && json_representable(x)),
+        SVal::Map(e) | SVal::CollectMap(e) => e.iter().all(|(k, x)| matches!(k, SVal::Str(_) | SVal::Ip(_) | SVal::Bool(_) | SVal::I8(_) | SVal::I16(_) | SVal::I32(_) | SVal::I64(_) | SVal::U8(_) | SVal::U16(_) | SVal::U32(_) | SVal::U64(_) | SVal::Char(_) | SVal::UnitVariant(_)) && json_representable(x)),
         SVal::Struct(f) | SVal::StructVariant(_, f) => f.iter().all(|(_, x)| json_representable(x)),
         SVal::StructSkip(f) => f.iter().all(|(_, x, skip)| *skip || json_representable(x)),
-        SVal::Fail => false,
+        SVal::Fail | SVal::MapRecover(_) | SVal::StructRecover(_) => false,
         _ => true,
     }
 }
@@ -365,6 +433,8 @@ fn kind_name(v: &SVal) -> &'static str {
         SVal::Ip(_) => "ip_addr",
         SVal::HumanReadableProbe => "human_readable_probe",
         SVal::Fail => "fail",
+        SVal::MapRecover(_) => "map_recovering",
+        SVal::StructRecover(_) => "struct_recovering",
     }
 }
 
@@ -543,6 +613,35 @@ fn cases(tier: Tier) -> Vec<SVal> {
         v.push(SVal::Struct(vec![("m", SVal::Map(vec![(k.clone(), SVal::I8(1))]))]));
     }
     v.push(SVal::Map(vec![(SVal::Str("d".into()), SVal::I8(1)), (SVal::Str("d".into()), SVal::I8(2))]));
+    // impls that go on after a failing entry: every pattern of failing values / refused keys over 1..4 entries
+    for n in 1..=4usize {
+        for pattern in 0..3usize.pow(n as u32) {
+            let mut entries: Vec<(SVal, SVal)> = Vec::new();
+            let mut fields: Vec<(&'static str, SVal)> = Vec::new();
+            let mut p = pattern;
+            for i in 0..n {
+                let name = ["a", "b", "c", "d"][i];
+                match p % 3 {
+                    0 => {
+                        entries.push((SVal::Str(name.into()), SVal::I8(i as i8)));
+                        fields.push((name, SVal::I8(i as i8)));
+                    }
+                    1 => {
+                        entries.push((SVal::Str(name.into()), SVal::Fail));
+                        fields.push((name, SVal::Fail));
+                    }
+                    _ => {
+                        entries.push((SVal::Seq(vec![]), SVal::I8(i as i8)));
+                        fields.push((name, SVal::U128(u128::MAX)));
+                    }
+                }
+                p /= 3;
+            }
+            v.push(SVal::MapRecover(entries.clone()));
+            v.push(SVal::StructRecover(fields.clone()));
+            v.push(SVal::Seq(vec![SVal::MapRecover(entries), SVal::StructRecover(fields)]));
+        }
+    }
     // depth 2 / 3: containers of containers
     let depth2: Vec<SVal> = pool.iter().flat_map(|a| containers(std::slice::from_ref(a))).collect();
     for d in &depth2 {
@@ -628,10 +727,10 @@ fn check(v: &SVal, acc: &mut Acc) {
     acc.outcome(format!("{}:{}", kind_name(v), if obs.is_ok() { "ok" } else { "err" }));
     match (&exp, &obs) {
         (Img::Open, _) => acc.count("unspecified_key_cases", 1),
-        (Img::Err, Err(_)) => {}
+        (Img::Err, Err(_)) | (Img::ErrOr(_), Err(_)) => {}
         (Img::Err, Ok(r)) => bad("must-fail", format!("succeeded with {} although the value cannot be represented faithfully", r.show()), acc),
         (Img::Ok(e), Err(m)) => bad("must-succeed", format!("failed ({m}), expected image {}", e.show()), acc),
-        (Img::Ok(e), Ok(r)) => {
+        (Img::Ok(e), Ok(r)) | (Img::ErrOr(e), Ok(r)) => {
             if e != r {
                 bad("unfaithful", format!("image {}, expected {}", r.show(), e.show()), acc);
             } else if json_representable(v) {
